@@ -43,6 +43,8 @@ CHECKS["C13"] = dict(text="Theorems (Coq) about the model of run()'s loop body: 
   ref="6 C13", technique="Coq proof (loop invariant per iteration, frame lemma over all handlers) + correspondence; partial for host-speed independence", note=_TB + "; PARTIAL: independence from host load / pacing sleeps is outside any executable model")
 CHECKS["C18"] = dict(text="Theorems (Coq) about the model of the line dispatch and of the send worker's escaping: batching_irrelevant (any partition of the received lines into polling batches = processing the whole sequence), stop_absorbs, unknown_lines_ignored, commands (pause/start/stop), unescape_escape and escape_one_line (induction on the byte list). The reader/writer threads, mpsc ordering and TCP delivery are runtime behaviour outside the model (partial). Correspondence: random sequences of well-formed and malformed lines under three polling schedules through the real run() with the scripted socket: memory, port inputs, announcements, stop/pause behaviour against the model of the fixed dispatch.",
   ref="6 C18", technique="Coq proof (fold over lines, induction on byte lists) + correspondence of the dispatch under polling schedules; partial for threads/TCP", note=_TB + "; PARTIAL: thread scheduling, channel ordering and TCP framing are exercised only through the scripted socket hook")
+CHECKS["C15"] = dict(text="Theorems (Coq) over ALL model states: no_panic_step, no_panic_boundary, no_panic_iter (no instruction word sequence, register / memory content, PC, bus-controller setting or batch of control lines takes the panic outcome; proved compositionally over every handler), unmapped_fetch_is_error. PARTIAL: the model carries the release semantics of integer arithmetic; for the overflow-checked build the remaining unchecked sites are argued by enumeration in DESIGN.md and exercised by the correspondence run in that build profile; allocation failure, closed stdout and socket worker threads are outside the model. Correspondence in two build profiles (release; release + overflow-checks + debug-assertions) under catch_unwind: all 65536 first words x adversarial register files / CCR / bus settings from region ends and unmapped PCs, prefix groups, MES calls with adversarial argument blocks, interrupt acceptance on adversarial stacks, control-line fuzz and faulting programs through run(): the outcome class must be the model's (ok / err), never a panic.",
+  ref="6 C15", technique="Coq proof (compositional no-panic over all handlers) + two-profile correspondence; partial for checked arithmetic and runtime aborts", note=_TB + "; PARTIAL as stated")
 NOT_APPLICABLE = []
 
 def main():
